@@ -238,18 +238,16 @@ deriving Repr
 recursion: an exhausted path fetches the next item (`items` shrinks). -/
 def nextFrom (ctx : Ctx) (op : Operation) (node : Node) (path : Path) (cur : Cursor)
     (lastAuthorized : Option (Nat × Nat × Nat)) (items : List Path) : Option (Out × St) :=
-  match nextForPath ctx op node path cur lastAuthorized with
-  | .yield ep cl leaf array cur' =>
+  match items, nextForPath ctx op node path cur lastAuthorized with
+  | items, .yield ep cl leaf array cur' =>
     some (.item ep cl leaf (isWildcard path) array,
       { items := items, item := if !isWildcard path then none else some path, cur := cur',
         lastAuthorized := some (ep, cl, leaf) })
-  | .err s =>
+  | items, .err s =>
     some (.status path s, { items := items, item := none, cur := cur, lastAuthorized := lastAuthorized })
-  | .done =>
-    match items with
-    | [] => none
-    | p :: rest => nextFrom ctx op node p {} lastAuthorized rest
-termination_by items.length
+  | [], .done => none
+  | p :: rest, .done => nextFrom ctx op node p {} lastAuthorized rest
+termination_by structural items
 
 /-- `PathExpander::next` -/
 def next (ctx : Ctx) (op : Operation) (node : Node) (st : St) : Option (Out × St) :=
